@@ -632,3 +632,43 @@ Proof.
   destruct (vec_reader bin (g_attr g) [r; gn; b; a] ps); [reflexivity|].
   cbn [firstn]. rewrite (groups_become_attributes_proof bin (g_attr g) [r; gn; b] ps ND). reflexivity.
 Qed.
+
+(* ================= unclaimed properties ================= *)
+Lemma build_v1_scalar_reader bin n (all : vprops) : build_v1 bin n n (scalars all) = Ok (scalar_reader bin all n).
+Proof. rewrite build_v1_spec. reflexivity. Qed.
+
+Lemma existsb_app' {A} (f : A -> bool) l1 l2 : existsb f (l1 ++ l2) = existsb f l1 || existsb f l2.
+Proof. induction l1; simpl; [reflexivity|]. rewrite IHl1. apply orb_assoc. Qed.
+
+Lemma scalar_reader_claims bin all n x n' : scalar_reader bin all n = Some x -> claims x n' = seqb n' n.
+Proof.
+  unfold scalar_reader. destruct (offsets bin all n) as [[off t]|]; [|discriminate].
+  cbn [option_map]. intros E. injection E as <-. unfold claims. cbn [b_names existsb]. apply orb_false_r.
+Qed.
+
+Lemma flat_map_ext_in' {A B} (f g : A -> list B) l : (forall a, In a l -> f a = g a) -> flat_map f l = flat_map g l.
+Proof. induction l as [|a l IH]; intros H; [reflexivity|]. simpl. rewrite (H a (or_introl eq_refl)), IH; [reflexivity|]. intros; apply H; right; assumption. Qed.
+
+(* UNCLAIMED.  LoadUnspecifiedProperties appends, in header order, one scalar reader (attribute = the property's own
+   name) for exactly the properties that none of the group readers claims *)
+Theorem add_unclaimed_spec bin (all : vprops) : forall (todo : vprops) bs,
+  NoDup (names todo) ->
+  add_unclaimed bin (scalars all) (scalars todo) bs = Ok (bs ++ unclaimed_readers bin all bs todo).
+Proof.
+  induction todo as [|[t n] todo IH]; intros bs ND.
+  - cbn. rewrite app_nil_r. reflexivity.
+  - inversion ND as [|? ? NI ND']; subst.
+    cbn [scalars map add_unclaimed prop_name]. fold (scalars todo).
+    unfold unclaimed_readers. cbn [flat_map snd]. fold (unclaimed_readers bin all bs todo).
+    destruct (existsb (fun b => claims b n) bs) eqn:C.
+    + rewrite IH by exact ND'. reflexivity.
+    + rewrite build_v1_scalar_reader. cbn [rbind].
+      destruct (scalar_reader bin all n) as [x|] eqn:S.
+      * rewrite IH by exact ND'. rewrite <- app_assoc. f_equal. f_equal. cbn [app]. f_equal.
+        unfold unclaimed_readers. apply flat_map_ext_in'. intros [t' n'] I. cbn [snd].
+        rewrite existsb_app'. cbn [existsb]. rewrite (scalar_reader_claims bin all n x n' S).
+        assert (Hne : seqb n' n = false).
+        { apply String.eqb_neq. intros ->. apply NI. unfold names. apply in_map_iff. exists (t', n). split; [reflexivity|exact I]. }
+        rewrite Hne. rewrite !orb_false_r. reflexivity.
+      * rewrite IH by exact ND'. reflexivity.
+Qed.
